@@ -167,8 +167,8 @@ pub fn run(ctx: &Ctx) {
          of the name the library procedure finds unbound (oracle: reference module system). Every kind x context skeleton is covered exhaustively with 40 random embeddings each. \
          Non-trivial = context other than direct, or effects before the fault that a later form observes.",
     );
-    ctx.random("user-library", ctx.tier.pick(600, 4_000), 60, user_library_case);
-    let per = ctx.tier.pick(80, 400);
+    ctx.random("user-library", ctx.tier.pick(2_000, 10_000), 60, user_library_case);
+    let per = ctx.tier.pick(160, 600);
     let n = (KINDS.len() * CONTEXTS_C08.len()) as u64;
     let depth = ctx.tier.pick(3, 5);
     // every skeleton, `per` random embeddings each: the skeleton index is taken from the case number
